@@ -1,6 +1,7 @@
 """Pass 2 for C09 / C10 / C15: enumerate small interval layouts, call the real transforms, record
 (inputs, output, inputs after the call) for spec/AwIntervalsTrace.tla."""
 import copy
+import json
 import itertools
 import random
 from datetime import timedelta
@@ -65,7 +66,7 @@ def run_cases(args):
     rnd = random.Random(seed)
     cx = Cx(rnd)
     tr = []
-    for c in cases:
+    def one_case(c):
         op = c[0]
         if op == "intersect":
             a, b = cx.mk(c[1], Event, 1), cx.mk(c[2], Event, 101)
@@ -92,4 +93,10 @@ def run_cases(args):
             pa, pb = cx.proj(a), cx.proj(b)
             out = union_no_overlap(a, b)
             tr.append({"op": op, "A": pa, "B": pb, "out": cx.proj(out), "A2": cx.proj(a), "B2": cx.proj(b)})
+
+    for c in cases:
+        try:
+            one_case(c)
+        except Exception as e:      # no input of these grids makes the unchanged transforms raise
+            tr.append({"op": "raised", "fn": c[0], "exc": type(e).__name__, "inp": json.dumps(c[1:], default=str)[:400]})
     return tr
